@@ -89,6 +89,14 @@ class _Strip(ast.NodeTransformer):
         self.generic_visit(node)
         return node
 
+    def visit_BinOp(self, node):
+        self.generic_visit(node)
+        # int / int literals (1 / 3, 9 / 8): exact rationals, not their double approximation (floats are reals)
+        if isinstance(node.op, ast.Div) and all(isinstance(x, ast.Constant) and isinstance(x.value, int) and not isinstance(x.value, bool)
+                                                 for x in (node.left, node.right)):
+            return ast.copy_location(ast.Call(func=ast.Name(id="__pyvc_frac", ctx=ast.Load()), args=[node.left, node.right], keywords=[]), node)
+        return node
+
     def visit_Import(self, node):
         if self.depth == 0 and self.drop_imports:
             return None
